@@ -645,3 +645,24 @@ package bits
 //@ func (*ByteWriter).WriteSlice
 //@   requires a != nil && a.w != nil
 //@   ensures a.w == old(a.w) && (old(a.err) != nil ==> a.err == old(a.err))
+
+// ---------------------------------------------------------------- type invariants and devirtualisation (used by all packages)
+// Functions without a written contract get these as requires/ensures for parameters of the given types.
+
+//@ pred erOK(r *EBSPReader) = r != nil && (r.err == nil ==> erInv(r))
+//@ pred ewOK(w *EBSPWriter) = w != nil && (w.err == nil ==> ewInv(w))
+//@ pred rOK(r *Reader) = r != nil && (r.err == nil ==> rInv(r))
+//@ pred wOK(w *Writer) = w != nil && (w.err == nil ==> wInv(w))
+//@ pred swOK(sw *FixedSliceWriter) = swInv(sw) && (sw.accError == nil ==> 0 <= sw.n && sw.n < 8)
+//@ pred srOKi(sr SliceReader) = typeis(sr, "*FixedSliceReader") && srInv(sr.(*FixedSliceReader))
+//@ pred swOKi(sw SliceWriter) = typeis(sw, "*FixedSliceWriter") && swOK(sw.(*FixedSliceWriter))
+//@ typeinv *EBSPReader erOK
+//@ typeinv *EBSPWriter ewOK
+//@ typeinv *Reader rOK
+//@ typeinv *Writer wOK
+//@ typeinv *FixedSliceReader srInv
+//@ typeinv *FixedSliceWriter swOK
+//@ typeinv SliceReader srOKi
+//@ typeinv SliceWriter swOKi
+//@ devirt SliceReader = *FixedSliceReader
+//@ devirt SliceWriter = *FixedSliceWriter
